@@ -1020,11 +1020,17 @@ class Sys:
         if acts is None:
             acts = self.user_script.get('started_actions', ()) if who in (None, '?', 'ctx0') else ()
         for act in acts:
-            if act[0] in ('add_child', 'register_child'):
+            if act[0] in ('add_child', 'register_child', 'both'):
                 prog = self.program
                 h = act[1]
                 if st.meta.get(('h', '_reg_' + h)) is None:
                     continue        # a later incarnation: the children were registered by the first one
+                if act[0] == 'both':
+                    self.sync_call(st, 'context::Context::<A>::add_child', [VRef(ctx.root, ctx.path, True), prog.take(st, '_reg2_' + h)])
+                    st.event('child_registered', 'add_child', h)
+                    self.sync_call(st, 'context::Context::<A>::register_child::<M>', [VRef(ctx.root, ctx.path, True), prog.take(st, '_reg_' + h)])
+                    st.event('child_registered', 'register_child', h)
+                    continue
                 child = prog.take(st, '_reg_' + h)
                 fn = 'context::Context::<A>::add_child' if act[0] == 'add_child' else 'context::Context::<A>::register_child::<M>'
                 self.sync_call(st, fn, [VRef(ctx.root, ctx.path, True), child])
